@@ -1,10 +1,12 @@
 import GrmVerif.Drive.C19
+import GrmVerif.Drive.C17
 /-! `gvdriver`: one request per line `<prop> <case-id> <nat>…`; replies are prefixed with the case id. -/
 open GrmVerif.Drive
 
 def dispatch (prop : String) (args : List Nat) : String :=
   match prop with
   | "C19" => C19.handle args
+  | "C17" => C17.handle args
   | _ => "bad-prop"
 
 def prefixLines (id : String) (s : String) : String :=
